@@ -367,6 +367,10 @@ def k_exe_layout(run, case):
                 ["--use_filenames", "--use_rel_time"]][rng.integers(4)]
         layout = case.get("layout") or ["before", "after", "between", "between"][rng.integers(4)]
         out_opts = ["--save_table", "table.csv", "--no_warnings"]
+        if case.get("target") == "stdout":
+            # the table piped on (evo_res ... --save_table /dev/stdout | column -s, -t): a device is
+            # no file that could be overwritten - written without a question, warnings enabled
+            out_opts = ["--save_table", "/dev/stdout", "--silent"]
         if layout == "before":
             argv = opts + names + out_opts
         elif layout == "after":
@@ -376,6 +380,14 @@ def k_exe_layout(run, case):
             argv = names[:cut] + opts + names[cut:] + out_opts
         pr = cli.run_subprocess("res", argv, work, os.environ["HOME"])
         table = os.path.join(work, "table.csv")
+        if case.get("target") == "stdout" and layout != "between":
+            run.seen(case, core.digest(layout, opts, k, "stdout"), cls=["evo_res executable, table written to /dev/stdout"],
+                     sample={"argv": argv, "exit": pr.returncode})
+            missing = [nm for nm in names if nm not in pr.stdout]
+            run.check(pr.returncode == 0 and not missing, "evo_res executable: table written to a device", case,
+                      "evo_res %s: exit %d, rows missing for %s; stderr %s" % (argv, pr.returncode, missing, pr.stderr[-200:]),
+                      key="exe:table-to-device")
+            return
         run.seen(case, core.digest(layout, opts, k), cls=["evo_res executable, options %s the files" % layout],
                  sample={"argv": argv, "exit": pr.returncode, "table_written": os.path.exists(table)})
         if pr.returncode != 0:
@@ -406,7 +418,8 @@ def main(run):
     for i in run.mine({"quick": 160, "thorough": 2500}[run.tier]):
         k_res(run, run.case("res", i))
     for i in run.mine({"quick": 12, "thorough": 120}[run.tier]):
-        k_exe_layout(run, run.case("exe_layout", i, layout=["between", "before", "between", "after"][i % 4]))
+        k_exe_layout(run, run.case("exe_layout", i, layout=["between", "before", "between", "after"][i % 4],
+                                   target="stdout" if i % 4 in (1, 3) and i % 8 >= 4 else None))
     run.need("evo_res executable: a row for every file on the command line", "merged statistic == arithmetic mean", "equal lengths: element-wise mean",
              "unequal lengths: concatenation in input order", "results with different keys refused",
              "single result returned unchanged", "info of the first result kept",
